@@ -248,6 +248,7 @@ Definition sstep (t : sst) (ea : event * obs) : sst * N :=
        | Replay _ => [(13, c_inert b a)]
        | Restart => [(14, c_restart a)]
        | Keepalive => [(15, c_send t1 b a); (16, c_frame b a)]   (* a keepalive is a send like any other *)
+       | Abandon => [(17, c_inert b a)]    (* giving up a handshake attempt changes no key and sends nothing *)
        end) in
   (* bookkeeping for the next step *)
   let promoted :=
